@@ -90,25 +90,28 @@ def finishRest (L S R : List Nat) (maxSlop : Nat) (st : CarryState) : CarryState
       if ns ≤ maxSlop then addVal out ns lv else out) st.out
     { st with out := out }
 
+/-- one iteration of the main loop (before the end-of-list test) -/
+def carryStep (L S R : List Nat) (maxSlop : Nat) (st : CarryState) : CarryState :=
+  let lv := L.getD st.li 0
+  let sl := S.getD st.li 0
+  let rv := R.getD st.ri 0
+  let d := sl + dist lv rv
+  if d ≤ maxSlop then
+    let out1 := addVal st.out d (if lv < rv then lv else rv)
+    let (ns, out2) :=
+      if lv < rv then betterLoop L rv sl L.length st.li d out1
+      else betterLoop R lv sl R.length st.ri d out1
+    let out3 := addVal out2 ns (if lv < rv then rv else lv)
+    { li := st.li + 1, ri := st.ri + 1, count := st.count + 1, out := out3 }
+  else if lv < rv then { st with li := st.li + 1 }
+  else { st with ri := st.ri + 1 }
+
 def carryLoop (L S R : List Nat) (maxSlop : Nat) : Nat → CarryState → CarryState
   | 0, st => st
   | fuel + 1, st =>
-    let lv := L.getD st.li 0
-    let sl := S.getD st.li 0
-    let rv := R.getD st.ri 0
-    let d := sl + dist lv rv
-    let st' : CarryState :=
-      if d ≤ maxSlop then
-        let out1 := addVal st.out d (if lv < rv then lv else rv)
-        let (ns, out2) :=
-          if lv < rv then betterLoop L rv sl L.length st.li d out1
-          else betterLoop R lv sl R.length st.ri d out1
-        let out3 := addVal out2 ns (if lv < rv then rv else lv)
-        { li := st.li + 1, ri := st.ri + 1, count := st.count + 1, out := out3 }
-      else if lv < rv then { st with li := st.li + 1 }
-      else { st with ri := st.ri + 1 }
-    if L.length ≤ st'.li ∨ R.length ≤ st'.ri then finishRest L S R maxSlop st'
-    else carryLoop L S R maxSlop fuel st'
+    if L.length ≤ (carryStep L S R maxSlop st).li ∨ R.length ≤ (carryStep L S R maxSlop st).ri then
+      finishRest L S R maxSlop (carryStep L S R maxSlop st)
+    else carryLoop L S R maxSlop fuel (carryStep L S R maxSlop st)
 
 /-- `intersection_count_with_carrying_slop`: (count, new left positions, new left slops) -/
 def carrying (L S R : List Nat) (maxSlop : Nat) : Nat × List Nat × List Nat :=
